@@ -66,6 +66,7 @@ type SimReader struct {
 	AfterTerm   int // calls made after the terminal condition
 	EmptyReads  int
 	DataWithErr int
+	pending     error // ReadByte got its byte together with the terminal condition: reported by the next call
 	Scribbled   int // reads after which the unused part of p was overwritten
 	Reads       int
 }
@@ -137,6 +138,10 @@ func (r *SimReader) Read(p []byte) (n int, err error) {
 	simrt.Yield(siteRead)
 	r.Reads++
 	defer func() { r.scribble(p, n); r.record(len(p), n, err) }()
+	if r.pending != nil {
+		err, r.pending = r.pending, nil
+		return 0, err
+	}
 	if r.terminated {
 		r.AfterTerm++
 		// recovering reader: serve what lies beyond the fault point
@@ -180,6 +185,59 @@ func (r *SimReader) Read(p []byte) (n int, err error) {
 		}
 	}
 	return n, nil
+}
+
+// richReader adds the optional interfaces a callee may probe for.  Len is a
+// hint only (bytes of the document not yet handed out, whatever the fault
+// will do), exactly as a file size is.
+type richReader struct{ *SimReader }
+
+func (r richReader) Len() int { return len(r.doc) - r.pos }
+
+func (r richReader) ReadByte() (byte, error) {
+	var b [1]byte
+	for i := 0; i < 1000; i++ {
+		n, err := r.SimReader.Read(b[:])
+		if n == 1 {
+			// a byte that came together with the terminal condition: the
+			// condition is reported by the next call, as bufio.Reader does
+			r.SimReader.pending = err
+			return b[0], nil
+		}
+		if err != nil {
+			return 0, err
+		}
+	}
+	return 0, io.ErrNoProgress
+}
+
+func (r richReader) WriteTo(w io.Writer) (int64, error) {
+	var total int64
+	buf := make([]byte, 512)
+	for {
+		n, err := r.SimReader.Read(buf)
+		if n > 0 {
+			m, werr := w.Write(buf[:n])
+			total += int64(m)
+			if werr != nil {
+				return total, werr
+			}
+		}
+		if err == io.EOF {
+			return total, nil
+		}
+		if err != nil {
+			return total, err
+		}
+	}
+}
+
+// asReader returns the value handed to NewBlockParser.
+func (r *SimReader) asReader() io.Reader {
+	if r.scn.Rich {
+		return richReader{r}
+	}
+	return r
 }
 
 func (r *SimReader) histString() string {
